@@ -9,8 +9,12 @@
 (*                             tool builds a HAMT-sharded directory; the   *)
 (*                             specification treats it as one opaque      *)
 (*                             entry (the harness knows its contents)      *)
-(* cfg = [version, nowrap, stdin, spell]; spell: how the source directory  *)
-(* is named on the command line ("abs" | "dot" | "dirdot" | "hidden")      *)
+(* cfg = [version, nowrap, stdin, spell, dest]; spell: how the source      *)
+(* directory is named on the command line ("abs" | "dot" | "dirdot" |       *)
+(* "hidden"); dest: the output directory is "fresh" (empty), reached        *)
+(* through a symbolic "link", or "stale": it holds an earlier, longer        *)
+(* version of every regular file (a second extraction over the first).      *)
+(* Extracted does not depend on dest: the result is the tree all the same.  *)
 (* Packed(t, wrap) is the root directory of the DAG the tool builds: with  *)
 (* wrapping a directory holding one entry named like the source directory, *)
 (* without it the source directory itself.  Extracted(t, wrap) is the set  *)
